@@ -222,7 +222,9 @@ def run(model, col, tier):
     # a break outside a loop is accepted by typing and then fails in lowering or in the VM (KeyError, IndexError, TypeError)
     from . import c11, c12
 
-    for mod_, pid_, rules_ in ((c12, "C12", ("R12.1", "R12.2", "R12.3", "R12.5")), (c11, "C11", ("R11.1", "R11.2", "R11.3", "R11.4"))):
+    # (R12.4: every declaration creates its variable before the initialiser / the first use reads it - otherwise a load of an
+    # undefined local; R11.5/R11.6: break / continue lists belong to one loop, every statement reaches the validators)
+    for mod_, pid_, rules_ in ((c12, "C12", ("R12.1", "R12.2", "R12.3", "R12.4", "R12.5")), (c11, "C11", ("R11.1", "R11.2", "R11.3", "R11.4", "R11.5", "R11.6"))):
         sub = Collector(pid_)
         mod_.run(model, sub, "quick")
         for ob in sub.obligations:
